@@ -398,12 +398,12 @@ pub const BYTES_LENS: [usize; 10] = [0, 1, 16, 32, 64, 4095, 4096, 4097, 8192, 8
 
 /// constructors; each returns Result (the constructor's own Result) — a panic propagates to the caller's guard
 pub const HB_CTORS: [&str; 6] = ["from_slice_into_locked", "from_slice_into_readonly_locked", "new_locked+resize", "plain.mlock", "Locked::default+resize", "Locked::new_bytes+resize"];
-pub const ARR_CTORS: [&str; 9] = ["from_slice_into_locked", "from_slice_into_readonly_locked", "new_locked+copy", "plain.mlock", "gen_locked+copy", "StackByteArray::mlock", "StackByteArray::mprotect_readonly", "Locked::new_byte_array+copy", "Locked::gen+copy"];
+pub const ARR_CTORS: [&str; 10] = ["from_slice_into_locked", "from_slice_into_readonly_locked", "new_locked+copy", "plain.mlock", "gen_locked+copy", "StackByteArray::mlock", "StackByteArray::mprotect_readonly", "Locked::new_byte_array+copy", "Locked::gen+copy", "Locked::default+copy"];
 
 pub fn ctor_returns_result(name: &str) -> bool {
     // every listed constructor's *first* (locking) step returns Result; "new_locked+resize" performs a
     // locked resize afterwards whose signature cannot report an error
-    !matches!(name, "new_locked+resize" | "Locked::default+resize" | "Locked::new_bytes+resize" | "Locked::new_byte_array+copy" | "Locked::gen+copy")
+    !matches!(name, "new_locked+resize" | "Locked::default+resize" | "Locked::new_bytes+resize" | "Locked::new_byte_array+copy" | "Locked::gen+copy" | "Locked::default+copy")
 }
 
 pub fn construct_hb(ctor: &str, src: &[u8]) -> Result<Box<dyn DynRegion>, String> {
@@ -467,6 +467,11 @@ macro_rules! construct_arr {
             }
             "Locked::new_byte_array+copy" => {
                 let mut p = <Locked<HeapByteArray<$n>> as NewByteArray<$n>>::new_byte_array();
+                p.as_mut_slice().copy_from_slice(src);
+                Ok(Box::new(R::RwL(p)) as Box<dyn DynRegion>)
+            }
+            "Locked::default+copy" => {
+                let mut p = <Locked<HeapByteArray<$n>> as Default>::default();
                 p.as_mut_slice().copy_from_slice(src);
                 Ok(Box::new(R::RwL(p)) as Box<dyn DynRegion>)
             }
